@@ -19,7 +19,7 @@ for pid, text, ref in [
   ("C05", "At every reachable state of every configuration a schedule request is evaluated and compared with a reference decision table written from the statement; waiting-count invariants are checked in every state.", "3/C05"),
   ("C06", "Every history with up to the depth bound of waiting jobs, cancels, failures and graph errors is executed; at every start no earlier-accepted job of the pipeline may still wait.", "3/C06"),
   ("C07", "Bursts and clock advances at every spacing of the alphabet are executed under a virtual clock; start >= created + delay exactly, promptness at quiescent states, and the debounce rules of the replace strategy are checked.", "3/C07"),
-  ("C15", "At every reachable state the pipeline listing is compared with the outcome of an actual schedule request issued in that state and with the running jobs; timestamp ordering is checked on every job.", "3/C15"),
+  ("C15", "At every reachable state the pipeline listing is compared with the outcome of an actual schedule request issued in that state and with the running jobs; timestamp ordering is checked on every job; at every state the real server handlers (/pipelines/jobs, /job/detail) must list exactly the runner's jobs, newest first; retention configurations check that a job stays reported until retention removes it; the reported task order is checked for every DAG on up to 4 tasks.", "3/C15"),
   ("C16", "Reload events at every point of every history over an alphabet of single-aspect definition changes; what each job's task runner receives must equal the definition in force when the job was accepted; no job may be stranded or touched by a reload. An additional free-running unit drives the real binary through all 24 reload histories over three definitions (SIGUSR1) and checks the tasks of jobs accepted afterwards.", "3/C16"),
 ]:
     CHECKS[pid] = dict(engine="RMC", category="model_checking", technique=X2T, text=text, design=ref, note=RMC_NOTE)
@@ -83,7 +83,7 @@ m = {
  ],
  "checks": [],
  "not_applicable": [],
- "notes": "bin/check <ID> rebuilds the instrumented harness from /repo's working tree on every call. Exit 3 = infrastructure failure (never a verdict).",
+ "notes": "bin/check <ID> rebuilds the instrumented harness (and the plain prunner binary for the APPX units) from /repo's working tree on every call. Exit 3 = infrastructure failure (never a verdict). known_findings.json lists one recorded (unrepaired) genuine defect for C01 and the repaired ones; seeded/ holds 80 confirmed property-breaking changes with the check results; regress/ replays the repaired defects as plain tests; DESIGN.md section 8 describes what was built.",
 }
 for p in props:
     pid = p["id"]
